@@ -100,11 +100,13 @@ Adopted(A, S, b) ==
 
 Stored(S, b) == [S EXCEPT !.stored = @ \cup {b}]
 
-(* The current chain as a competitor (tip-first).  Two readings are admitted for a node *)
-(* whose flagged chain does not reach down to everything it stores below it: "flags"   *)
-(* (the wound chain) and "stored" (every stored ancestor of the tip).  They coincide   *)
-(* except after a chain with unseen older blocks was adopted and some of those blocks  *)
-(* arrived later.                                                                      *)
+(* The current chain as a competitor (tip-first): the wound chain, i.e. the flagged      *)
+(* blocks below the tip ("flags").  The reading "stored" (every stored ancestor of the   *)
+(* tip, wound or not) is what the pinned tree used when the candidate shared no on-chain *)
+(* ancestor; it differs after a chain with unseen older blocks was adopted and some of   *)
+(* those blocks arrived later, and made a failing reorganisation unwind blocks that were *)
+(* never wound (repaired in /repo, see known_findings.json); it is kept as a parameter   *)
+(* only so that the difference can be shown.                                             *)
 CurrentChain(A, S, m) ==
     RevSeq(PathUp(A, S.tip, IF m = "flags" THEN S.inlc ELSE S.stored))
 
@@ -148,7 +150,7 @@ AddSetM(A, S, b, m) ==
               THEN {[res |-> "AddedLc", S |-> Adopted(A, S, b)]} ELSE {})
              \cup (IF ~OkStrict(A, d.new) THEN {[res |-> "Invalid", S |-> S]} ELSE {})
 
-AddSet(A, S, b) == AddSetM(A, S, b, "flags") \cup AddSetM(A, S, b, "stored")
+AddSet(A, S, b) == AddSetM(A, S, b, "flags")
 
 (* the arriving block must end up as the tip: every reading leaves adoption as the only outcome *)
 MustAdopt(A, S, b) == \A o \in AddSet(A, S, b) : o.res = "AddedLc"
@@ -166,7 +168,7 @@ CriteriaM(A, S, T, m) ==
           /\ \A i \in DOMAIN nc.chain : GTOk(A, nc.chain[i], T.stored)
           /\ (S.tip # None => A[T.tip].height > A[S.tip].height)
 
-Criteria(A, S, T) == T.tip = S.tip \/ CriteriaM(A, S, T, "flags") \/ CriteriaM(A, S, T, "stored")
+Criteria(A, S, T) == T.tip = S.tip \/ CriteriaM(A, S, T, "flags")
 
 -----------------------------------------------------------------------------
 (* Micro-step machine *)
